@@ -83,6 +83,19 @@ CLAIMED["C04"] = dict(
     technique="TLA+ spec (ClassDB + rule-insertion clauses); trace validation of recorded searches by TLC",
 )
 
+CLAIMED["C14"] = dict(
+    category="model_checking",
+    text="RuleDB.tla specifies the pruning rule database (stored keys, equivalence edges, rules up to equivalence, specification "
+         "existence). During real searches every rule given to the searcher's database is also fed to two lockstep shadows (default "
+         "and memory-saving), and after every single insertion both are observed (stored keys, membership of stored and non-stored "
+         "keys in any child order, is_verified of every label, has_specification, re-application of the strategy handed back for "
+         "each stored key). TLC judges with Trace_RuleDB.tla that both are behaviours of RuleDB.tla and agree with each other.",
+    design_ref="DESIGN.md 3/C14",
+    note="Trusted: TLC, the lockstep harness. is_verified is compared between the flavours only (its exact value depends on when "
+         "has_specification was last asked; both shadows see identical call sequences).",
+    technique="TLA+ spec; lockstep trace validation of two implementations against one specification by TLC",
+)
+
 NOT_YET = {}
 
 ALL = ["C%02d" % i for i in range(1, 21)]
